@@ -8,4 +8,4 @@ if [ ! -x /verif/bin/vrewrite ] || [ /verif/tools/vrewrite/main.go -nt /verif/bi
 fi
 # const.go is already replaced by run.sh (performance constant); vrewrite skips it
 rm -rf "$bd/vrw"
-/verif/bin/vrewrite -repo "$repo" -out "$bd" -overlay "$ov" -skip const.go lib/chain lib/utxo lib/btc lib/others/sys 2> "$bd/vrewrite.log" || { cat "$bd/vrewrite.log" >&2; exit 1; }
+/verif/bin/vrewrite -repo "$repo" -out "$bd" -overlay "$ov" -skip const.go -vos /verif/internal/vos/vos.go lib/chain lib/utxo lib/btc lib/others/sys 2> "$bd/vrewrite.log" || { cat "$bd/vrewrite.log" >&2; exit 1; }
